@@ -19,7 +19,7 @@ func srChallenge(tr, r string) string {
 }
 
 func c12Specs() []*edt.Spec {
-	sigScalar := "upd($data[32:], [31]=((sel($data[32:], [31]) & 127)))"
+	sigScalar := "upd($data[32:], [31]=(($data[32:][31] & 127)))"
 	wideOK := map[string]edt.Assumption{
 		"isnil(err(scalar.NewFromBytesModOrderWide(": {Val: true, Why: "wide reduction of a 64-byte buffer cannot fail (E-LEN: panic classified impossible)"},
 	}
